@@ -30,10 +30,80 @@ def _replay(model, history):
     return impl, ref
 
 
+def in_child(fn):
+    """Runs fn() in a forked child and returns its (picklable) result: for models whose implementation state is
+    process-global, so that no hidden module-level state can leak from one replayed history into the next."""
+    import os
+    import pickle
+    import traceback
+
+    r, w = os.pipe()
+    pid = os.fork()
+    if pid == 0:
+        os.close(r)
+        try:
+            data = pickle.dumps(("ok", fn()))
+        except BaseException as e:  # noqa
+            data = pickle.dumps(("error", f"{type(e).__name__}: {e}\n{traceback.format_exc()[-1500:]}"))
+        with os.fdopen(w, "wb") as fp:
+            fp.write(data)
+        os._exit(0)
+    os.close(w)
+    with os.fdopen(r, "rb") as fp:
+        data = fp.read()
+    os.waitpid(pid, 0)
+    status, val = pickle.loads(data)
+    if status == "error":
+        raise RuntimeError("child failed: " + val)
+    return val
+
+
+def _expand_isolated(model, modname, margs, histories, depth) -> dict:
+    succ: Dict[Any, list] = {}
+    viols: Dict[str, dict] = {}
+    transitions = 0
+    outcomes: Dict[str, int] = {}
+    for hist in histories:
+        def get_ops(hist=hist):
+            impl, ref = _replay(model, hist)
+            return model.enabled(ref, depth)
+
+        ops = in_child(get_ops)
+        for op in ops:
+            def one(hist=hist, op=op):
+                impl, ref = _replay(model, hist)
+                impl, ref, vs = model.apply(impl, ref, op)
+                c = None
+                if not vs or getattr(model, "continue_after_violation", True):
+                    c = model.canon(impl, ref)
+                if not vs and hasattr(model, "final_check"):
+                    # observation with side effects on hidden state; safe here because this child is discarded
+                    vs = model.final_check(impl, ref, op)
+                return vs, c
+
+            vs, c = in_child(one)
+            transitions += 1
+            kind = op[0] if isinstance(op, (list, tuple)) else str(op)
+            outcomes[kind] = outcomes.get(kind, 0) + 1
+            h2 = list(hist) + [op]
+            for v in vs:
+                old = viols.get(v["key"])
+                if old is None:
+                    viols[v["key"]] = {"key": v["key"], "what": v["what"], "detail": v.get("detail", ""),
+                                       "case": {"model": modname, "args": margs, "history": h2}, "count": 1}
+                else:
+                    old["count"] += 1
+            if c is not None and c not in succ:
+                succ[c] = h2
+    return {"succ": succ, "viols": list(viols.values()), "transitions": transitions, "outcomes": outcomes}
+
+
 def _expand(arg) -> dict:
     modname, margs, histories, depth = arg
     mod = importlib.import_module(modname)
     model = mod.make_model(margs)
+    if getattr(model, "isolate", False):
+        return _expand_isolated(model, modname, margs, histories, depth)
     succ: Dict[Any, list] = {}
     viols: Dict[str, dict] = {}
     transitions = 0
@@ -132,9 +202,16 @@ def replay_history(modname: str, margs: Any, history: list) -> List[dict]:
     """Re-executes one history without the explorer; returns the violations of its LAST transition."""
     mod = importlib.import_module(modname)
     model = mod.make_model(margs)
-    impl, ref = model.initial()
-    vs: List[dict] = []
-    for op in history:
-        impl, ref, vs = model.apply(impl, ref, op)
+
+    def go():
+        impl, ref = model.initial()
+        vs: List[dict] = []
+        for op in history:
+            impl, ref, vs = model.apply(impl, ref, op)
+        if not vs and getattr(model, "isolate", False) and hasattr(model, "final_check") and history:
+            vs = model.final_check(impl, ref, history[-1])
+        return vs
+
+    vs = in_child(go) if getattr(model, "isolate", False) else go()
     return [{"key": v["key"], "what": v["what"], "detail": v.get("detail", ""),
              "case": {"model": modname, "args": margs, "history": history}} for v in vs]
